@@ -42,15 +42,18 @@ def run(tier, seed):
     cases, meta, bad = [], [], []
     for it in range(nruns):
         mname, x0, p0 = MODELS[it % len(MODELS)]
-        integ = ["exp", "linear-rk4"][(it // len(MODELS)) % 2]      # every model with both integrators
-        cls = [mudslide.TrajectorySH, mudslide.Ehrenfest, mudslide.TrajectoryCum, mudslide.AugmentedFSSH][it % 4]
-        diab = (it % 5 == 3) and mname != "shin-metiu"       # diabatic representation: full symmetric H, zero couplings
-        model = M[mname](representation="diabatic") if diab else M[mname]()
+        integ = ["exp", "linear-rk4"][(it // len(MODELS)) % 2] if it < 2 * len(MODELS) else rng.choice(["exp", "linear-rk4", "linear-rk4"])      # every model with both integrators, then random
+        cls = rng.choice([mudslide.TrajectorySH, mudslide.Ehrenfest, mudslide.TrajectoryCum, mudslide.AugmentedFSSH])
+        # every model with both integrators in the adiabatic representation first; beyond that half the runs use the
+        # diabatic representation (full symmetric H, zero couplings)
+        diab = it >= 2 * len(MODELS) and rng.random() < 0.5 and mname != "shin-metiu"
+        mkw = dict(nstates=rng.choice([4, 5]), nel=32) if mname == "shin-metiu" and (integ != "exp" or rng.random() < 0.5) else {}
+        model = M[mname](representation="diabatic") if diab else M[mname](**mkw)
         if diab and len(x0) == 1:
             x0 = [rng.uniform(-1.0, -0.2)]       # inside the coupling region, where the diabatic Hamiltonian is far from diagonal
         n = model.nstates()
         if cls is mudslide.AugmentedFSSH and (n != 2 or diab): cls = mudslide.TrajectorySH
-        kind = ["state", "pure-coherent", "mixed"][it % 3]
+        kind = rng.choice(["state", "pure-coherent", "mixed"])
         dt = rng.choice([2.0, 5.0, 10.0]) if integ == "exp" else rng.choice([0.4, 0.8, 1.5])
         nsteps = rng.randint(10, 40) if integ == "exp" else rng.randint(30, 60)
         kw = dict(dt=dt, max_steps=nsteps, electronic_integration=integ, seed_sequence=rng.randrange(2 ** 31))
@@ -93,7 +96,7 @@ def run(tier, seed):
         res.count("representation/" + info["representation"] + "/" + integ)
         res.count("integrator/" + integ); res.count("initial/" + kind); res.count("nstates/%d" % n); res.count("class/" + cls.__name__)
         # oracle spec of eigh + model correspondence, a few steps per run
-        for k in sorted(rng.sample(range(len(recorded)), min(len(recorded), 3 if tier == "quick" else 6))):
+        for k in sorted(set([0] + rng.sample(range(len(recorded)), min(len(recorded), 3 if tier == "quick" else 6)))) if recorded else []:   # step 0 always: the only step that sees the initial (possibly mixed) matrix
             r = recorded[k]
             Cm, lam = r["C"], r["lam"]
             Wt = r["W"] if integ == "exp" else r["H0"].astype(complex)
